@@ -220,7 +220,12 @@ func WithTxReadClosers(ctx context.Context, db Database, opts *sql.TxOptions, fn
 	}
 
 	for i := range readers {
+		closedOnce := new(atomic.Bool)
 		readers[i] = ioutils.NewReadCloserWithCloseHook(readers[i], func() error {
+			if closedOnce.Swap(true) {
+				// Closing the same reader again must not release another reader's share.
+				return nil
+			}
 			if atomic.AddInt64(&remaining, -1) == 0 {
 				return tx.Rollback(ctx)
 			}
